@@ -180,8 +180,18 @@ def r3_no_overwrite(ctx, cb, rule='C03-R3'):
         if heads and ins.target is not None:
             head = max(heads, key=lambda c: len([1 for x in heads if b.dominates(x.bb, c.bb)]))
             after = b.reach([ins.target], cut_blocks=[head.bb])
+            def straight_to_head(x):
+                # the loop's header block(s) in front of the `next` call: a straight line into it
+                for _ in range(6):
+                    if x == head.bb:
+                        return True
+                    ss = list(b.succ[x])
+                    if len(ss) != 1:
+                        return False
+                    x = ss[0]
+                return False
             left = any(x in after for x in b.returns) or \
-                any(x != head.bb and b.dominates(x, head.bb) for x in after)
+                any(x != head.bb and b.dominates(x, head.bb) and not straight_to_head(x) for x in after)
             ctx.check(not left, rule, 'terminal-loop-continues-after-insert', b,
                       good='after recording one property the terminal loop goes on to the next',
                       bad='%s: the terminal-state loop stops after the first eventually property it records: other '
